@@ -1,7 +1,7 @@
 (* C15 - Raster paths expose exactly the black pixels. Statements only. *)
 From Coq Require Import List Bool ZArith QArith.
 Import ListNotations.
-From Femto Require Import Base.Dedup Base.Runs Base.RunsProofs Path.Stroke Path.Raster Path.RasterProofs.
+From Femto Require Import Base.Dedup Base.Runs Base.RunsProofs Path.Stroke Path.Raster Path.RasterProofs Path.ClosedProofs Pgm.Ops Pgm.SafeProofs.
 
 (* for every boolean matrix, size and scale: the open-shutter strokes of the raster trajectory are, row by row
    in image order, one stroke per maximal run of black pixels, from the x of the run's first pixel to the x
@@ -25,6 +25,14 @@ Theorem C15_group_closed_ends : forall z speed closed y run,
   end.
 Proof. exact run_points_closed_ends. Qed.
 Print Assumptions C15_group_closed_ends.
+
+(* the raster trajectory of every image ends with the shutter closed and is a closed path for the compiler *)
+Theorem C15_raster_is_closed_path : forall px z speed closed w h img,
+  ends_closed rs (raster px z speed closed w h img) /\ closed_path (map rto_pt (raster px z speed closed w h img)) = true.
+Proof.
+  intros. split; [apply raster_closed|]. destruct builders_closed_paths as [_ [_ [_ [_ [_ F]]]]]. apply F.
+Qed.
+Print Assumptions C15_raster_is_closed_path.
 
 Example C15_example :
   raw_strokes (tagged (raster (1 # 100) 0 1 5 3 2 [[true; false; true]; [false; true; true]])) =
